@@ -47,7 +47,7 @@ Fixpoint unescape (fuel : nat) (t : text) : option text :=
           | h1 :: h2 :: r3 =>
             match hex_digit h1, hex_digit h2 with
             | Some a, Some b => let byte := (a * 16 + b) mod 256 in
-                                if byte >? 127 then None
+                                if 127 <? byte then None
                                 else match unescape f r3 with Some s => Some (byte :: s) | None => None end
             | _, _ => None
             end
